@@ -886,12 +886,12 @@ def rtol_of(q, method=None):
     return RTOL_DIFF if q['q'] in ('ID', 'TD', 'CURV', 'GROW', 'IMP') else RTOL      # all of these contain mobilities
 SYSTEMS = {
     'ALZR': {'binary': True, 'prec': ['AL3ZR'], 'matrix': ['FCC_A1'], 'methods': ['tangent', 'approximate', 'sampling', 'curvature'],
-             'x': [(0.002, 0.02)], 'T': (500.0, 850.0), 'queries': ['DF', 'DF', 'IC', 'ID', 'TD'], 'batch': ['IC', 'IC', 'DF', 'ID', 'TD']},
+             'x': [(0.002, 0.02)], 'und': [(1e-4, 4e-4)], 'T': (500.0, 850.0), 'queries': ['DF', 'DF', 'IC', 'ID', 'TD'], 'batch': ['IC', 'IC', 'DF', 'ID', 'TD']},
     'NICRAL': {'binary': False, 'prec': ['FCC_L12'], 'matrix': ['DIS_FCC_A1'], 'methods': ['tangent', 'approximate', 'sampling', 'curvature'],
-               'x': [(0.05, 0.1), (0.1, 0.12)], 'T': (950.0, 1150.0), 'queries': ['DF', 'DF', 'ID', 'TD', 'CURV', 'GROW', 'IMP', 'ICM'],
+               'x': [(0.05, 0.1), (0.1, 0.12)], 'und': [(0.05, 0.1), (0.03, 0.085)], 'T': (950.0, 1150.0), 'queries': ['DF', 'DF', 'ID', 'TD', 'CURV', 'GROW', 'IMP', 'ICM'],
                'batch': ['ICM', 'DF', 'ID', 'TD', 'GROW'], 'far': [(0.005, 0.03), (0.005, 0.04)]},
     'ALMGSI': {'binary': False, 'prec': ['MGSI_B_P', 'MG5SI6_B_DP', 'B_PRIME_L', 'U1_PHASE', 'U2_PHASE'], 'matrix': ['FCC_A1'],
-               'methods': ['tangent', 'sampling'], 'x': [(0.003, 0.01), (0.003, 0.01)], 'T': (420.0, 520.0),
+               'methods': ['tangent', 'sampling'], 'x': [(0.003, 0.01), (0.003, 0.01)], 'und': [(1e-4, 6e-4), (1e-4, 6e-4)], 'T': (420.0, 520.0),
                'queries': ['DF', 'DF', 'DF', 'GROW', 'ID', 'TD'], 'batch': ['DF', 'GROW', 'ID', 'TD'], 'far': [(1e-5, 2e-4), (1e-5, 2e-4)]},
     'FECRNI': {'binary': False, 'prec': [], 'matrix': ['FCC_A1', 'BCC_A2'], 'methods': ['tangent'],
                'x': [(0.1, 0.3), (0.05, 0.2)], 'T': (1100.0, 1500.0), 'queries': ['ID', 'TD'], 'batch': ['ID', 'TD']},
@@ -907,12 +907,20 @@ def norm_result(r):
     return [np.array(r, dtype=float)]
 
 
-def same_result(a, b, rtol=RTOL):
-    """returns (ok, worst relative difference)"""
+DF_FLOOR = 1000.0     # J/mol: a driving force is a difference of chemical-potential terms of 1e4..1e5 J/mol; its noise does not shrink with it
+
+
+def floors_of(q):
+    k = q.get('kind', q['q']) if q['q'] == 'batch' else q['q']
+    return [DF_FLOOR, 0.0] if k == 'DF' else None
+
+
+def same_result(a, b, rtol=RTOL, floors=None):
+    """returns (ok, worst relative difference); floors[i] = smallest magnitude field i is compared against"""
     if len(a) != len(b):
         return False, float('inf')
     worst = 0.0
-    for u, v in zip(a, b):
+    for fi, (u, v) in enumerate(zip(a, b)):
         if u is None or v is None:
             if (u is None) != (v is None):
                 return False, float('inf')
@@ -926,6 +934,8 @@ def same_result(a, b, rtol=RTOL):
                 return False, float('inf')
             u, v = np.nan_to_num(u), np.nan_to_num(v)
         sc = max(float(np.max(np.abs(u))), float(np.max(np.abs(v))))
+        if floors is not None and fi < len(floors):
+            sc = max(sc, floors[fi])
         if sc == 0:
             continue
         worst = max(worst, float(np.max(np.abs(u - v))) / sc)
@@ -976,10 +986,23 @@ def gen_query(rng, system, pool):
     S = SYSTEMS[system]
     k = str(rng.choice(S['queries']))
     # points: a small pool (revisits, so that repetitions and returns after a temperature jump occur) or a new point
-    if pool and rng.random() < 0.45:
+    r = rng.random()
+    if pool and r < 0.35:
         x, T = pool[int(rng.integers(len(pool)))]
+    elif pool and r < 0.55:
+        # a temperature that differs from an earlier one by a relative 1e-9 .. 1e-4 (small time steps of a slow ramp, finite
+        # differences in T): whatever is cached per temperature must be keyed by the exact temperature
+        x, T = pool[int(rng.integers(len(pool)))]
+        T = float(T * (1.0 + float(rng.choice([-1, 1])) * 10 ** rng.uniform(-9, -4)))
+        if rng.random() < 0.5:
+            x = [float(rng.uniform(lo, hi)) for lo, hi in S['x']]
+        pool.append((x, T))
     else:
         x = [float(rng.uniform(lo, hi)) for lo, hi in S['x']]
+        if k == 'DF' and 'und' in S and rng.random() < 0.35:
+            # undersaturated matrix: the driving force is negative, a legitimate answer of the driving-force query
+            # (solute contents below 1e-4 are avoided: there the solver's convergence noise exceeds 1e-8 of the driving force)
+            x = [float(rng.uniform(lo, hi)) for lo, hi in S['und']]
         T = float(rng.uniform(*S['T']))
         pool.append((x, T))
     q = {'q': k, 'x': x[0] if S['binary'] else x, 'T': T, 'rm': bool(rng.random() < 0.3)}
@@ -1008,12 +1031,17 @@ def gen_batch(rng, system):
     S = SYSTEMS[system]
     k = str(rng.choice(S['batch']))
     Tv = sorted(float(rng.uniform(*S['T'])) for _ in range(3))
+    if rng.random() < 0.35:       # nearly equal temperatures in one array
+        Tv = [Tv[0], float(Tv[0] * (1 + 10 ** rng.uniform(-9, -4))), float(Tv[0] * (1 - 10 ** rng.uniform(-9, -4)))]
     Ts = t_pattern(rng, [Tv[int(i)] for i in rng.permutation(3)])
     n = len(Ts)
     newx = lambda: [float(rng.uniform(lo, hi)) for lo, hi in S['x']]
     q = {'q': 'batch', 'kind': k, 'T': Ts, 'rm': bool(rng.random() < 0.3)}
     if k in ('DF', 'ID', 'TD'):
         xs = [newx() for _ in range(n)] if rng.random() < 0.6 else [newx()] * n
+        if k == 'DF' and 'und' in S and rng.random() < 0.4:
+            xs = list(xs)
+            xs[int(rng.choice([0, 0, n - 1]))] = [float(rng.uniform(lo, hi)) for lo, hi in S['und']]      # an undersaturated entry
         q['x'] = [x[0] for x in xs] if S['binary'] else xs
         q['ph'] = str(rng.choice(S['prec'])) if k == 'DF' else (str(rng.choice(S['matrix'])) if len(S['matrix']) > 1 else None)
     elif k == 'IC':
@@ -1151,7 +1179,7 @@ def run_purity(case, ref=None, budget_fresh=0):
             def out_of_range(want):
                 if k in ('GROW',) and all(v is None for v in want):
                     return True
-                if k == 'DF' and (want[0] is None or float(np.ravel(want[0])[0]) <= 0):
+                if k == 'DF' and want[0] is None:
                     return True
                 return k in ('IC', 'ICM') and want[0] is not None and bool(np.any(np.asarray(want[0]) < 0))
             skip = [out_of_range(w_) for w_ in singles]       # entries outside the stable range are not compared
@@ -1171,7 +1199,7 @@ def run_purity(case, ref=None, budget_fresh=0):
                 if skip[j]:
                     continue
                 part = [None if a is None else (np.array(a[j]) if (a.ndim >= 1 and a.shape[0] == n_) else a) for a in bres]
-                ok, w = same_result(part, [None if a is None else np.array(a) for a in want], rtol_of(bq, method))
+                ok, w = same_result(part, [None if a is None else np.array(a) for a in want], rtol_of(bq, method), floors_of(bq))
                 if not ok:
                     hits.append(('batch_is_pointwise', blabel,
                                  'entry %d of the batched call %d %r is %s, the single-point evaluation %r gives %s (relative difference %.3g)'
@@ -1197,8 +1225,8 @@ def run_purity(case, ref=None, budget_fresh=0):
         outside = False
         if q['q'] in ('CURV', 'GROW', 'IMP') and all(v is None for v in want):
             outside = True
-        if q['q'] == 'DF' and (want[0] is None or float(np.ravel(want[0])[0]) <= 0):
-            outside = True
+        if q['q'] == 'DF' and want[0] is None:
+            outside = True            # (a negative driving force is a regular answer: compared, and the history goes on)
         if q['q'] in ('IC', 'ICM') and want[0] is not None and np.any(np.asarray(want[0]) < 0):
             outside = True
         if outside:
@@ -1207,7 +1235,7 @@ def run_purity(case, ref=None, budget_fresh=0):
                 break
             # removeCache=True asks for an answer that owes nothing to cached equilibria: far outside the two-phase region it
             # is None on an object without history and must be None here too (compared below; the history goes on)
-        ok, w = same_result(got, want, rtol_of(q, method))
+        ok, w = same_result(got, want, rtol_of(q, method), floors_of(q))
         if ok:
             worst = max(worst, w)
         else:
@@ -1218,14 +1246,14 @@ def run_purity(case, ref=None, budget_fresh=0):
             budget_fresh -= 1
             fresh = therm(system, method, fresh=True)
             tf = do_query(fresh, q, rm=True)[0]
-            ok2, w2 = same_result(want, tf, rtol_of(q, method))
+            ok2, w2 = same_result(want, tf, rtol_of(q, method), floors_of(q))
             if not ok2:
                 hits.append(('history_independent', 'clearCache ' + label,
                              'query %d %r: an object after clearCache() returns %s, a newly built object %s' % (i, q, short(want), short(tf)), i))
         # repeat the call: same answer
         try:
             again, _ = do_query(warm, q)
-            ok3, w3 = same_result(got, again, rtol_of(q, method))
+            ok3, w3 = same_result(got, again, rtol_of(q, method), floors_of(q))
             if not ok3:
                 hits.append(('repeat_same', label, 'query %d %r returned %s and, repeated, %s' % (i, q, short(got), short(again)), i))
             else:
@@ -1253,7 +1281,7 @@ def run_purity(case, ref=None, budget_fresh=0):
             hits.append(('arguments_unchanged', '%s %s' % (k, name), 'batched %s changed its argument %s' % (k, name), len(case['history'])))
         for j, (q, got) in enumerate(lst):
             part = [None if a is None else a[j] for a in bres]
-            ok, w = same_result([None if a is None else np.array(a) for a in part], got, rtol_of(bq, method))
+            ok, w = same_result([None if a is None else np.array(a) for a in part], got, rtol_of(bq, method), floors_of(bq))
             if not ok:
                 hits.append(('batch_is_pointwise', k + (' ' + method if k == 'DF' else ''),
                              'point %d of the batched %s call %r returned %s, alone it returned %s' % (j, k, bq, short(part), short(got)), len(case['history'])))
@@ -1360,6 +1388,9 @@ def gen_scripted_history(rng, quick):
     nph = 5
     xs = [int(v) for v in rng.choice(np.arange(0, 56), int(rng.integers(2, 6)), replace=False)]
     Ts = [int(v) for v in rng.choice(np.arange(600, 640), int(rng.integers(1, 4)), replace=False)]
+    if rng.random() < 0.5:
+        # temperatures that differ by a relative 1e-7 .. 1e-5: caches keyed by temperature must compare exactly
+        Ts = [6000000 + t for t in Ts]
     m0 = str(rng.choice(list(METHODS)))
     ops = []
     if rng.random() < 0.4:
